@@ -11,12 +11,26 @@ COMMON_NOTE = ("Trusted: Coq 8.16.1 kernel + vm_compute; no axioms (Print Assump
                "cases evaluated in Coq); harness generators and canonicalisation; SHA-512/bcrypt/crypto-rand/net-http assumed.")
 
 CHECKS = {
-    "C11": dict(
-        text="Machine-checked theorems (Coq) over every handler program of any length: the writer's trace equals a "
-             "declarative specification (one call per non-empty store, session first, exactly the pre-write events in order, "
-             "nothing after the first byte, reads stable), with corollaries. Tied to client_state.go by running random and "
-             "exhaustively enumerated programs on the real ClientStateResponseWriter and comparing full traces in Coq.",
-        ref="6/C11", technique="Coq proof by generalised-state induction + differential trace check"),
+    'C01': dict(cat='proof', text="c01: routes that cannot log in leave every session's identity untouched (all configs/oracles/faults), other browsers untouched, identity only dropped by logout/expiry, /login and /otp/login write uid only under the verified credential; Theorems about the hand-written Gallina model of the request core (Props/C01.v, axiom-free, re-checked every run); the model is tied to /repo by running generated histories on the real library through its router and comparing every step in Coq (facets 10,13); the property predicate pred_c01, defined in Coq independently of the handlers, judges the implementation's observations and yields the failing history as replay.", ref='6/C01', technique='Coq proof (event-class logic + guard lemmas over all hook orders) + differential history check'),
+    'C02': dict(cat='proof', text="Second factor: Theorems about the hand-written Gallina model of the request core (Props/C02.v, axiom-free, re-checked every run); the model is tied to /repo by running generated histories on the real library through its router and comparing every step in Coq (facets 13,18,156); the property predicate pred_c02 (with a ghost of every SMS the implementation sent), defined in Coq independently of the handlers, judges the implementation's observations and yields the failing history as replay.", ref='6/C02', technique='Coq proof + differential history check with SMS ghost'),
+    'C03': dict(cat='proof', text="Locked/unconfirmed: Theorems about the hand-written Gallina model of the request core (Props/C03.v, axiom-free, re-checked every run); the model is tied to /repo by running generated histories on the real library through its router and comparing every step in Coq (facets 10,13,152,153); the property predicate pred_c03, defined in Coq independently of the handlers, judges the implementation's observations and yields the failing history as replay.", ref='6/C03', technique='Coq proof + differential history check'),
+    'C04': dict(cat='proof', text="The lock bookkeeping is a pure machine (Model/Lock.v, used verbatim by the handlers) proved to refine a declarative reading of the thresholds for ALL histories and settings (c04_refines, c04_locked_iff, ...); Theorems about the hand-written Gallina model of the request core (Props/C04.v, axiom-free, re-checked every run); the model is tied to /repo by running generated histories on the real library through its router and comparing every step in Coq (facets 10,13,153); the property predicate pred_c04 (lock triple of every account), defined in Coq independently of the handlers, judges the implementation's observations and yields the failing history as replay.", ref='6/C04', technique='Coq refinement proof by induction over histories + differential check'),
+    'C05': dict(cat='proof', text="Confirm/recover links: Theorems about the hand-written Gallina model of the request core (Props/C05.v, axiom-free, re-checked every run); the model is tied to /repo by running generated histories on the real library through its router and comparing every step in Coq (facets 10,11,151,152,154); the property predicate pred_c05 (accepted iff the decoded bytes are an outstanding token; otherwise nothing changes), defined in Coq independently of the handlers, judges the implementation's observations and yields the failing history as replay.", ref='6/C05', technique='Coq proof + differential history check with token hostile stream'),
+    'C06': dict(cat='proof', text="Password change: Theorems about the hand-written Gallina model of the request core (Props/C06.v, axiom-free, re-checked every run); the model is tied to /repo by running generated histories on the real library through its router and comparing every step in Coq (facets 14,16,151,154); the property predicate pred_c06, defined in Coq independently of the handlers, judges the implementation's observations and yields the failing history as replay.", ref='6/C06', technique='Coq proof + differential history check'),
+    'C07': dict(cat='proof', text="Codec theorems for ALL pid/nonce bytes (parse(make)=pid, shape, injectivity, refutation of the old first-separator parse) + flow: Theorems about the hand-written Gallina model of the request core (Props/C07.v, axiom-free, re-checked every run); the model is tied to /repo by running generated histories on the real library through its router and comparing every step in Coq (facets 13,14,16); the property predicate pred_c07, defined in Coq independently of the handlers, judges the implementation's observations and yields the failing history as replay.", ref='6/C07', technique='Coq proof (codec laws) + differential history check (theft, replay, revocation)'),
+    'C08': dict(cat='proof', text="Access middleware: the model's auth_middleware is compared with the real MountedMiddleware2 on the COMPLETE decision table (2592 rows) with sampled hostile paths/queries; pred_c08 states runs-iff and the exact refusal; query-escape round trip proved for all byte strings (Base/TextProofs.v).", ref='6/C08', technique='exhaustive decision-table differential check + Coq round-trip proof'),
+    'C09': dict(cat='proof', text="Idle expiry: Theorems about the hand-written Gallina model of the request core (Props/C09.v, axiom-free, re-checked every run); the model is tied to /repo by running generated histories on the real library through its router and comparing every step in Coq (facets 12,13); the property predicate pred_c09 (expired iff stamp+ExpireAfter<=now; hidden view; stamps on login), defined in Coq independently of the handlers, judges the implementation's observations and yields the failing history as replay.", ref='6/C09', technique='Coq proof + differential history check around the threshold'),
+    'C10': dict(cat='proof', text="Logout: Theorems about the hand-written Gallina model of the request core (Props/C10.v, axiom-free, re-checked every run); the model is tied to /repo by running generated histories on the real library through its router and comparing every step in Coq (facets 13,14); the property predicate pred_c10 (only whitelisted keys + flash survive, cookie gone, other methods inert), defined in Coq independently of the handlers, judges the implementation's observations and yields the failing history as replay.", ref='6/C10', technique='Coq proof + differential history check from every reachable session state'),
+    'C11': dict(cat='proof', text="Machine-checked theorems (Coq) over every handler program of any length: the writer's trace equals a declarative specification (one call per non-empty store, session first, exactly the pre-write events in order, nothing after the first byte, reads stable), with corollaries. Tied to client_state.go by running random and exhaustively enumerated programs on the real ClientStateResponseWriter and comparing full traces in Coq.", ref='6/C11', technique='Coq proof by generalised-state induction + differential trace check'),
+    'C12': dict(cat='proof', text="One-time secrets: Theorems about the hand-written Gallina model of the request core (Props/C12.v, axiom-free, re-checked every run); the model is tied to /repo by running generated histories on the real library through its router and comparing every step in Coq (facets 13,155,156); the property predicate pred_c12 (with a ghost of every one-time value accepted so far), defined in Coq independently of the handlers, judges the implementation's observations and yields the failing history as replay.", ref='6/C12', technique='Coq proof + differential history check with replay ghost'),
+    'C13': dict(cat='proof', text="2FA settings: Theorems about the hand-written Gallina model of the request core (Props/C13.v, axiom-free, re-checked every run); the model is tied to /repo by running generated histories on the real library through its router and comparing every step in Coq (facets 13,17,18,156); the property predicate pred_c13 (who may change which 2FA field, proving which factor; e-mail gate), defined in Coq independently of the handlers, judges the implementation's observations and yields the failing history as replay.", ref='6/C13', technique='Coq proof + differential history check'),
+    'C14': dict(cat='proof', text="PID codec injectivity for all uid bytes (Props/C14.v) + flow: Theorems about the hand-written Gallina model of the request core (Props/C14.v, axiom-free, re-checked every run); the model is tied to /repo by running generated histories on the real library through its router and comparing every step in Coq (facets 10,13,19,157); the property predicate pred_c14 (state must match and is spent; failing callbacks make no storage call), defined in Coq independently of the handlers, judges the implementation's observations and yields the failing history as replay.", ref='6/C14', technique='Coq proof (codec) + differential history check'),
+    'C15': dict(cat='proof', text="For ALL byte strings: every value the guard accepts, its non-ASCII escaping and its net/http rewrite are classified same-site by a WHATWG-derived browser spec (c15_safe; old guard refuted); the real redirector's Location on a URL-spelling grammar x 6 flows x 2 modes is judged by the same spec, and the spec is cross-checked against Node's URL.", ref='6/C15', technique='Coq proof over all strings + differential check + Node cross-validation of the spec'),
+    'C16': dict(cat='proof', text='Paired runs from identical worlds (same seed/config/prefix history), final request differing only in the secret; status, all headers, body bytes and both jars compared byte for byte; model theorems about the client view in Props/C16.v.', ref='6/C16', technique='paired-run differential check + Coq client-view theorems'),
+    'C17': dict(cat='proof', text='Storage dump and log stream of every step scanned for every secret the harness typed or was shown; model theorems on which fields/log arguments are built from secrets in Props/C17.v; correspondence on all hashed fields.', ref='6/C17', technique='taint scan over differential histories + Coq field-shape theorems'),
+    'C18': dict(cat='proof', text='Every backend call of the target request of 37 flows is failed in turn with each error kind, both error handlers, form and JSON (exhaustive single faults; thorough: pairs); the model has the same fault oracle and must agree on every facet; pred_c18: no panic, no reported success for an unsaved change, no session when the consuming write failed.', ref='6/C18', technique='exhaustive fault enumeration, model/impl differential + Coq predicate'),
+    'C19': dict(cat='proof', text="Policy theorem for every rule setting/string/classification (c19_policy), confirm-field law; registration outcomes: Theorems about the hand-written Gallina model of the request core (Props/C19.v, axiom-free, re-checked every run); the model is tied to /repo by running generated histories on the real library through its router and comparing every step in Coq (facets 12,13,17,151,158); the property predicate pred_c19, defined in Coq independently of the handlers, judges the implementation's observations and yields the failing history as replay.", ref='6/C19', technique='Coq proof (policy iff) + differential history check'),
+    'C20': dict(cat='proof', text="Request-level footprint theorem (other browsers' jars untouched, any config/oracle); runtime half: 16-64 goroutine clients on one instance with the shipped defaults and mail goroutines under the race detector, concurrent vs solo transcripts; any race report in library frames is a violation. Partial: data races cannot be carried by the model.", ref='6/C20', technique='Coq footprint theorem + race-detector concurrency runs'),
 }
 
 NOT_YET = {}
@@ -36,7 +50,7 @@ def main():
                 evidence_file="/verif/evidence/%s.json" % pid,
                 replay_cmd_template="python3 tools/check.py %s --replay {path}" % pid,
                 engine="coq-model+correspondence",
-                level_claimed=dict(category="proof", text=c["text"], design_ref="DESIGN.md section " + c["ref"]),
+                level_claimed=dict(category=c.get("cat", "proof"), text=c["text"], design_ref="DESIGN.md section " + c["ref"]),
                 level_note=c.get("note", COMMON_NOTE),
                 technique=c["technique"],
             ))
